@@ -587,9 +587,10 @@ def paths_under(fn, x, vname, preds=PTR_PREDICATES, max_paths=64, with_conds=Fal
             if nxt is None:
                 # an open test: fork, remembering which outcome each branch stands for
                 forks = []
+                c1 = assume_variant(te, c, x, vname, preds)
                 for lab, s in t["targets"]:
-                    forks.append((s, (c, lab, vm)))
-                forks.append((t["otherwise"], (c, ("not", tuple(l_ for l_, _ in t["targets"])), vm)))
+                    forks.append((s, (c1, lab, vm)))
+                forks.append((t["otherwise"], (c1, ("not", tuple(l_ for l_, _ in t["targets"])), vm)))
                 nxt = None
         else:
             nxt = list(cfg.succ[b])
